@@ -50,6 +50,7 @@ def _c11(o, driver, rng):
     if driver is not None:
         o.suites.append(sp.run_suite(driver, sp.suite_groups(rng, o.tier)))
         o.suites.append(sp.run_suite(driver, sw.suite_connect(rng, o.tier)))
+        o.suites.append(sp.run_suite(driver, sw.suite_connect_kinds(rng, o.tier)))
     vio, n = mw.monitor_c11(rng, o.tier)
     o.monitor_stats["impl_monitor_evaluations"] = n
     o.monitor_stats["impl_monitor_violations"] = len(vio)
